@@ -193,7 +193,11 @@ def build(case, seed=0):
         for num, variant in case['layout']:
             items.append('MODEL     %4d\n' % num)
             items += [a.clone() for a in pre] + variant_atoms(mid, variant) + [a.clone() for a in post]
-            items += ['TER\n'] + [a.clone() for a in lys] + ([] if case.get('noter') else ['TER\n']) + ['ENDMDL\n']
+            if case.get('lys_in') is None or num in case['lys_in']:
+                items += ['TER\n'] + [a.clone() for a in lys] + ([] if case.get('noter') else ['TER\n'])
+            else:
+                items += ['TER\n']
+            items += ['ENDMDL\n']
     s = gen.S(items)
     s.translate(gen.seed_offset(seed))
     s.renumber_serials()
@@ -361,6 +365,9 @@ def check_average(rec, parsed, tol=1e-9):
             want[occ[0][1]['label']] += 1
         for lab in (want - labels):
             v.append(('summary-missing-group', 'summary lacks %r' % lab))
+        tab = collections.Counter(r['label'] for r in parsed['det'])
+        for lab in (want - tab):
+            v.append(('determinant-table-missing-group', 'determinant table lacks %r' % lab))
     return v
 
 
@@ -417,6 +424,16 @@ def layouts(tier):
                 if all(x == 'absent' for x in vs):
                     continue
                 cases.append(dict(kind='model', layout=list(zip(nums, vs)), twin=twin))
+    # the partner chain exists in some models only
+    for lys_in in ((2,), (1,), (2, 3), (3,)):
+        for nums in ((1, 2), (1, 2, 3)):
+            if max(lys_in) <= max(nums):
+                for vs in itertools.product(('ASP', 'ASPs'), repeat=len(nums)):
+                    cases.append(dict(kind='model', layout=list(zip(nums, vs)), lys_in=list(lys_in)))
+    # all hydrogens supplied and kept (--keep-protons); one side chain has two alternate positions: the second conformation must be
+    # given the hydrogens too
+    for shift in ((0, 0, 0), (120, -80, 100)):
+        cases.append(dict(kind='keep-h', shift=list(shift)))
     # one alternate is a modified residue given as HETATM (SER/SEP, CYS/CSO, MET/MSE ...)
     for tags in (('A', 'B'), ('A', 'B', 'C')):
         for vs in itertools.product(('ASP', 'HETX', 'ALA'), repeat=len(tags)):
@@ -477,7 +494,39 @@ def plan(tier, seed):
 def run_case(case, ctx, acc):
     k = case['kind']
     viols = []
-    if k in ('alt', 'model', 'alt-atom', 'bridge'):
+    if k == 'keep-h':
+        from . import c07
+        one = build(dict(kind='alt', layout=[(' ', 'ASP')]), ctx.seed)
+        fed = c07.hydrogens_fed_back(one, pk.run(gen.to_text(one)))
+        items = []
+        for it in fed:
+            if isinstance(it, str):
+                items.append(it)
+                continue
+            it = it.clone()
+            if it.element == 'H':
+                it.x, it.y, it.z = it.x + case['shift'][0], it.y + case['shift'][1], it.z + case['shift'][2]
+            if it.chain == 'A' and it.resnum == 2 and it.name in ('CG', 'OD1', 'OD2'):
+                b = it.clone()
+                it.alt, b.alt = 'A', 'B'
+                b.x, b.y, b.z = b.x + 400, b.y + 300, b.z - 200
+                items += [it, b]
+            else:
+                items.append(it)
+        text = gen.to_text(items)
+        mol = pk.run(text, ('--keep-protons',), write=True)
+        rec = pk.record(mol)
+        acc.case(nontrivial_key=jhash(case), outcome='keep-h')
+        supplied = sorted((a.chain, a.resnum, a.name, a.x, a.y, a.z) for a in items if not isinstance(a, str) and a.element == 'H')
+        for n in mol.conformation_names:
+            have = sorted((a.chain_id, a.res_num, a.name, int(round(a.x * 1000)), int(round(a.y * 1000)), int(round(a.z * 1000)))
+                          for a in mol.conformations[n].atoms if a.element == 'H')
+            miss = [h for h in supplied if h not in have]
+            if miss:
+                viols.append(('completion/hydrogens-not-topped-up', '%s lacks %d of the %d supplied hydrogens, e.g. %s' % (n, len(miss), len(supplied), miss[:3])))
+        viols += check_average(rec, pk.parse_pka(mol._pka_text))
+        inputs = dict(pdb=text, opts=['--keep-protons'])
+    elif k in ('alt', 'model', 'alt-atom', 'bridge'):
         s = build(case, ctx.seed)
         text = gen.to_text(s)
         mol = pk.run(text, write=True)
